@@ -7,6 +7,7 @@ use crate::engine::{self, Config, DocH, ElH, Res};
 use crate::gen::{self, SoupKind};
 use crate::norm;
 use crate::rng::{fnv, mix, Rng};
+use crate::{selgen, structgen};
 use serde_derive::{Deserialize, Serialize};
 use serde_json::Value;
 
@@ -23,6 +24,8 @@ pub struct Case6 {
 }
 
 const SPARSE: &[&str] = &["*", "p", "div", "span", "script", "title", "svg", "math", "td", "[a]", "p > *", "div *", ":not(div)", "nosuchtag", "textarea", "select", "b", "li:nth-child(2)", "style", "template", "font", "mi", "desc", "option"];
+
+const FOREIGN_SEL: &[&str] = &["svg", "math", "circle", "g", "path", "title", "desc", "foreignobject", "mi", "mtext", "annotation-xml", "svg *", "svg > *", "*", "a", "rect", "text", "use", "mrow"];
 
 fn gen_extra(rng: &mut Rng) -> (Vec<ElH>, Vec<DocH>) {
     let mut el = vec![];
@@ -146,7 +149,7 @@ impl Prop for C06 {
         "C06"
     }
     fn rule(&self) -> String {
-        "relational: same input and schedule under handler set H (selector-scoped observers, sometimes plus document handlers) and under H ∪ O (O = document text/comments/doctype, '*', sparse selectors, everything), O registered before or after H; non-trivial when the two runs differ in the number of scanner<->lexer switches (hook events) and H logged at least one event; distinct = hash(input, schedule, H, O)".into()
+        "relational: same input (soup / structured documents with foreign islands / dense mis-nested documents) and schedule under handler set H (selector-scoped observers, sometimes plus document handlers) and under H ∪ O (O = document text/comments/doctype, '*', sparse selectors, everything), O registered before or after H; non-trivial when the two runs differ in the number of scanner<->lexer switches (hook events) and H logged at least one event; distinct = hash(input, schedule, H, O)".into()
     }
     fn run_shard(&self, ctx: &mut Ctx<'_>) {
         let n = ctx.budget(600_000, 12_000_000);
@@ -166,13 +169,52 @@ impl Prop for C06 {
             if ctx.rng.chance(1, 5) {
                 cfg.doc.push(DocH { doctype: ctx.rng.bool(), comments: ctx.rng.bool(), text: false, end: true, ..Default::default() });
             }
-            let rawb = ctx.rng.chance(1, 8);
-            let mut input = gen::soup(&mut ctx.rng, 30, SoupKind::Any, rawb);
-            if ctx.rng.chance(1, 12) {
-                gen::mutate(&mut ctx.rng, &mut input);
+            // input: soup (1/2), structured documents with foreign islands (1/4), dense mis-nested documents over four names (1/4)
+            let mode = ctx.rng.below(4);
+            const DENSE_NAMES: &[&str] = &["div", "span", "p", "b"];
+            let mut input = match mode {
+                0 | 1 => {
+                    let rawb = ctx.rng.chance(1, 8);
+                    let mut input = gen::soup(&mut ctx.rng, 30, SoupKind::Any, rawb);
+                    if ctx.rng.chance(1, 12) {
+                        gen::mutate(&mut ctx.rng, &mut input);
+                    }
+                    input
+                }
+                2 => {
+                    ctx.count("structured_foreign_documents");
+                    structgen::gen_doc(&mut ctx.rng, &structgen::Opts { foreign: true, max_nodes: 18, esi: cfg.esi, ..Default::default() }).bytes
+                }
+                _ => {
+                    ctx.count("dense_documents");
+                    let o = structgen::Opts { foreign: ctx.rng.chance(1, 4), max_nodes: 30, max_depth: 8, esi: false, nonascii: false, plaintext: false, weird_attrs: false, names: Some(DENSE_NAMES), close_percent: *ctx.rng.pick(&[30usize, 50, 70]), ..Default::default() };
+                    structgen::gen_doc(&mut ctx.rng, &o).bytes
+                }
+            };
+            if mode >= 2 {
+                // H from the selector generator (C04's grammar): interplay of compiled selector programs, end-tag handlers in
+                // scan mode inside foreign content (both added after seeded changes were caught only by other checks)
+                cfg.el.clear();
+                for _ in 0..ctx.rng.range(1, 3) {
+                    let sel = if mode == 3 && !ctx.rng.chance(1, 4) { selgen::gen_structural(&mut ctx.rng, DENSE_NAMES).css() } else if ctx.rng.bool() { selgen::gen_list(&mut ctx.rng).css() } else { (*ctx.rng.pick(FOREIGN_SEL)).to_string() };
+                    let mut e = ElH { selector: sel, element: ctx.rng.chance(3, 4), text: ctx.rng.chance(1, 3), comments: ctx.rng.chance(1, 4), end_tag: ctx.rng.chance(1, 2), ..Default::default() };
+                    if !(e.element || e.text || e.comments || e.end_tag) {
+                        e.element = true;
+                    }
+                    cfg.el.push(e);
+                }
             }
             let cuts = gen::random_cuts(&mut ctx.rng, input.len());
-            let (extra_el, extra_doc) = gen_extra(&mut ctx.rng);
+            let (mut extra_el, extra_doc) = gen_extra(&mut ctx.rng);
+            if mode >= 2 && ctx.rng.bool() {
+                for _ in 0..ctx.rng.range(1, 3) {
+                    let sel = if mode == 3 { selgen::gen_structural(&mut ctx.rng, DENSE_NAMES).css() } else { selgen::gen_list(&mut ctx.rng).css() };
+                    extra_el.push(ElH { selector: sel, element: true, ..Default::default() });
+                }
+            }
+            if input.is_empty() {
+                input.push(b'x');
+            }
             let c = Case6 { base: Case::new(&cfg, &input, &cuts), extra_el, extra_doc, extra_first: ctx.rng.chance(1, 3) };
             ctx.eval();
             match check(&c) {
